@@ -161,10 +161,56 @@ Definition client_dialog5 (i : list N) : option (list N) :=
             | Done (cmd, _, _) _ =>
                 if (cmd =? 1) || (cmd =? 3) then None
                 else Some (v5_write_auth_method 0 ++ v5_write_response_unspecified 7)
-            | _ => Some (v5_write_auth_method 0)
+            | Fail _ w => Some (v5_write_auth_method 0 ++ w)   (* e.g. the "address type not supported" reply *)
+            | NeedMore => Some (v5_write_auth_method 0)
             end
           else Some (v5_write_auth_method 255)
       | _ => Some []
+      end
+  | _ => None
+  end.
+
+(* the same listener for every first byte: version 4 requests other than CONNECT are answered "rejected" (91); an
+   unknown version is closed without an answer *)
+Definition client_dialog (i : list N) : option (list N) :=
+  match i with
+  | 4 :: r =>
+      match v4_read_request r with
+      | Done (cmd, _, _) _ => if cmd =? 1 then None else Some (v4_write_response 91)
+      | Fail _ w => Some w
+      | NeedMore => Some []
+      end
+  | 5 :: _ => client_dialog5 i
+  | _ => Some []
+  end.
+
+(* a CONNECT request through the listener once the tunnel is there: the reply, and the target (host bytes, port) the
+   tunnel server is asked to connect to: exactly the address of the request *)
+Definition host_bytes (a : addr) : option (list N) :=
+  match a with
+  | AV4 a b c d => Some (render_v4 a b c d)
+  | ADom n => Some n
+  | AV6 _ => None     (* the text form of an IPv6 address is not modelled *)
+  end.
+
+Definition client_connect (i : list N) : option (list N * list N * N) :=
+  match i with
+  | 4 :: r =>
+      match v4_read_request r with
+      | Done (1, a, port) _ => option_map (fun h => (v4_write_response 90, h, port)) (host_bytes a)
+      | _ => None
+      end
+  | 5 :: r =>
+      match v5_read_auth_methods r with
+      | Done ms rest =>
+          if existsb (N.eqb 0) ms then
+            match v5_read_request rest with
+            | Done (1, a, port) _ =>
+                option_map (fun h => (v5_write_auth_method 0 ++ v5_write_response_unspecified 0, h, port)) (host_bytes a)
+            | _ => None
+            end
+          else None
+      | _ => None
       end
   | _ => None
   end.
